@@ -181,6 +181,62 @@ func (fs *memFS) Rename(o, n string) error {
 	return nil
 }
 
+func (fs *memFS) Stat(name string) (os.FileInfo, error) {
+	fs.mu.Lock()
+	defer fs.mu.Unlock()
+	if _, fail := fs.begin("stat", name, 0); fail {
+		return nil, &os.PathError{Op: "stat", Path: name, Err: errInjected}
+	}
+	ino, ok := fs.files[name]
+	if !ok {
+		return nil, &os.PathError{Op: "stat", Path: name, Err: os.ErrNotExist}
+	}
+	return memInfo{name: name, size: int64(len(ino.data))}, nil
+}
+
+func (fs *memFS) Truncate(name string, size int64) error {
+	fs.mu.Lock()
+	defer fs.mu.Unlock()
+	rec, fail := fs.begin("truncate", name, int(size))
+	if fail {
+		return &os.PathError{Op: "truncate", Path: name, Err: errInjected}
+	}
+	ino, ok := fs.files[name]
+	if !ok {
+		return &os.PathError{Op: "truncate", Path: name, Err: os.ErrNotExist}
+	}
+	ino.resize(size)
+	fs.mutated(rec, false)
+	return nil
+}
+
+func (ino *inode) resize(size int64) {
+	if size <= int64(len(ino.data)) {
+		ino.data = ino.data[:size]
+		return
+	}
+	nd := make([]byte, size)
+	copy(nd, ino.data)
+	ino.data = nd
+}
+
+func (f *memFile) Truncate(size int64) error {
+	f.fs.mu.Lock()
+	defer f.fs.mu.Unlock()
+	if f.closed {
+		return os.ErrClosed
+	}
+	rec, fail := f.fs.begin("truncate", f.path, int(size))
+	if fail {
+		return &os.PathError{Op: "truncate", Path: f.path, Err: errInjected}
+	}
+	f.ino.resize(size)
+	f.fs.mutated(rec, false)
+	return nil
+}
+
+func (f *memFile) Name() string { return f.path }
+
 type memFile struct {
 	fs     *memFS
 	ino    *inode
